@@ -94,6 +94,30 @@ def check_bytes(b: bytes) -> tuple[list[tuple[str, str]], str]:
             v = tuple(v)
         if got != v:
             out.append((f"C02/{base}/field/{k}", f"{b.hex()[:60]}: {k} = {got!r}, ISO position holds {v!r}"))
+    if not out and sum(b) % 3 == 0:
+        # what a decoded response exposes depends on the received bytes only - not on what the holder of an earlier decoding of
+        # the same bytes has done to that object meanwhile
+        for k, v in list(vars(r).items()):
+            try:
+                if isinstance(v, bool) or k == "trigger_request":
+                    continue
+                if isinstance(v, int):
+                    setattr(r, k, (v + 1) & 0xFF)
+                elif isinstance(v, (bytes, bytearray)):
+                    setattr(r, k, b"\xde\xad" + bytes(v))
+                elif isinstance(v, list):
+                    v.append(v[0] if v else 1)
+                elif isinstance(v, dict):
+                    v.clear()
+            except Exception:  # noqa: BLE001
+                pass
+        try:
+            again = service.UDSResponse.parse_dynamic(b)
+            if again.pdu != b or type(again) is not type(r):
+                out.append((f"C02/{base}/decoding-depends-on-earlier-results", f"second parse_dynamic({b.hex()[:60]}) -> {type(again).__name__} {again.pdu.hex()[:60]} "
+                            "after the first result had been modified by its holder"))
+        except Exception as e:  # noqa: BLE001
+            out.append((f"C02/{base}/decoding-depends-on-earlier-results", f"second parse_dynamic({b.hex()[:60]}) raised {type(e).__name__}: {e}"))
     return out, "typed"
 
 
